@@ -24,6 +24,7 @@ from __future__ import annotations
 from vmc import sched, vfutures, vthreading, vtime
 
 OK, DEADLINE_BEFORE, DEADLINE_AFTER, KILL = 'ok', 'deadline-before', 'deadline-after', 'kill'
+KILL_OTHER = 'kill-other'
 
 
 class StatusError(Exception):
@@ -59,7 +60,8 @@ class Net:
     self.exclude_methods = ('heartbeat',)
 
   def faults_for(self, address, method):
-    kinds = self.menu.get(method, self.menu.get('*', []))
+    kinds = [k for k in self.menu.get(method, self.menu.get('*', []))
+             if k != KILL_OTHER]
     if not kinds:
       return []
     n = self.ncalls.get((address, method), 0)
@@ -154,12 +156,22 @@ class Client:
       if k in (DEADLINE_BEFORE, DEADLINE_AFTER) and not timeout:
         continue
       kinds.append(k)
+    # a worker may also die at a moment that is not one of its own calls: at
+    # any RPC boundary every other live worker may be killed
+    if KILL_OTHER in NET.menu.get('*', []):
+      for a in sorted(NET.servers):
+        if (a != addr and a.startswith('w') and a not in NET.dead
+            and NET.servers[a]._started):
+          kinds.append(KILL_OTHER + ':' + a)
     NET.ncalls[(addr, method)] = NET.ncalls.get((addr, method), 0) + 1
     idx = s.choose(len(kinds), kind=f'rpc:{method}') if len(kinds) > 1 else 0
     answer = kinds[idx]
     NET.calls.append((addr, method, answer))
     if answer == KILL:
       kill(addr)
+    elif answer.startswith(KILL_OTHER + ':'):
+      kill(answer.split(':', 1)[1])
+      answer = OK
     server = NET.servers.get(addr)
     alive = (server is not None and server._started
              and addr not in NET.dead)
